@@ -175,6 +175,7 @@ TWIN = [
     ("C09", "fstring-tags", "gaftools/cli/sort.py", 'line += "\\tbo:i:%d\\tsn:Z:%s\\tiv:i:%d\\n" % (alignment.BO, alignment.sn, alignment.inv)', 'line += f"\\tbo:i:{alignment.BO}\\tsn:Z:{alignment.sn}\\tiv:i:{alignment.inv}\\n"'),
     ("C10", "is-not-none-polarity", "gaftools/cli/sort.py", "                if index_dict[alignment.sn][0] is None:\n                    index_dict[alignment.sn][0] = out_off\n                    index_dict[alignment.sn][1] = out_off\n                else:\n                    index_dict[alignment.sn][1] = out_off", "                if index_dict[alignment.sn][0] is None:\n                    index_dict[alignment.sn][0] = out_off\n                index_dict[alignment.sn][1] = out_off"),
     ("C11", "else-instead-of-continue", "gaftools/cli/realign.py", "                    # all processes exited cleanly, the rest of their output is still in the queue\n                    continue\n            if out_string_obj is None:\n                n_sentinels += 1\n            else:\n                p_queue.put(out_string_obj)", "                    # all processes exited cleanly, the rest of their output is still in the queue\n                    continue\n            if out_string_obj is not None:\n                p_queue.put(out_string_obj)\n            else:\n                n_sentinels += 1"),
+    ("C11", "leftover-spread-ceil", "gaftools/cli/realign.py", '        processes.append(\n            mp.Process(\n                target=wfa_alignment,\n                args=(\n                    seq_batch,\n                    align_queue,\n                ),\n            )\n        )\n    # leftover batches', '        n_free = min(max(cores - len(processes), 1), len(seq_batch))\n        chunk = (len(seq_batch) + n_free - 1) // n_free\n        for i in range(n_free):\n            processes.append(\n                mp.Process(\n                    target=wfa_alignment,\n                    args=(\n                        seq_batch[i * chunk : (i + 1) * chunk],\n                        align_queue,\n                    ),\n                )\n            )\n    # leftover batches'),
     ("C13", "any-all-helpers", "gaftools/cli/realign.py", "    for p in processes:\n        if p.exitcode != 0:\n            return False\n    return True", "    return all(p.exitcode == 0 for p in processes)"),
     ("C14", "cases-reordered", "gaftools/gfa.py", '            (">", ">"): ("end", 0),\n            ("<", "<"): ("start", 1),', '            ("<", "<"): ("start", 1),\n            (">", ">"): ("end", 0),'),
     ("C16", "fstring-writer", "gaftools/gaf.py", 'line += "\\t%s%s" % (k, self.tags[k])', 'line += f"\\t{k}{self.tags[k]}"'),
